@@ -181,6 +181,35 @@ def truncateTop (c : Cfg) (s : Top) (item : Nat) : Option Top :=
     | none => none
   else some s
 
+/-! ### concurrent use as it exists (round 6)
+
+`Freezer` is `Clone` (the state is behind `Arc<Mutex<Inner>>`, `number` is a shared atomic) and both
+`freeze` and `truncate` read `self.number()` BEFORE taking the lock:
+
+* `freeze`:   `let number = self.number(); let mut guard = self.inner.lock(); for number in number..threshold`
+* `truncate`: `if item > 0 && item + 1 < self.number() { let mut inner = self.inner.lock(); … }`
+
+so any whole operations of other threads may run between the read and the lock.  The body under the
+lock is atomic.  `freezeFrom` / `truncateFrom` are the two operations with the pre-lock read as an
+explicit parameter `n0` (ANY value: whatever `number` was at some earlier moment); `freeze` and
+`truncateTop` are the instances `n0 = number under the lock`. -/
+
+/-- `Freezer::freeze` whose `let number = self.number()` returned `n0` -/
+def freezeFrom (c : Cfg) (s : Top) (n0 threshold : Nat) (get : Nat → Option Block)
+    (stopped : Nat → Bool) : Top × FreezeOut :=
+  freezeLoop c get stopped (threshold - n0) n0 s []
+
+/-- `Freezer::truncate` whose guard `item + 1 < self.number()` was evaluated on `n0`; under the lock
+    `FreezerFiles::truncate` re-tests its own guard on the current number, then `retrieve(item)` is
+    `expect`ed to be there.  `none` = `Err` or that `expect` panicking. -/
+def truncateFrom (c : Cfg) (s : Top) (n0 item : Nat) : Option Top :=
+  if item > 0 ∧ item + 1 < n0 then
+    let r := truncate s.h s.d item
+    match readBlock c r.1 r.2 item with
+    | some b => some ⟨r.1, r.2, some b⟩
+    | none => none
+  else some s
+
 /-- a crash (index file cut to `il` bytes, head data file to `fl` bytes / removed) followed by
     `Freezer::open` -/
 def crashOpen (c : Cfg) (s : Top) (il : Nat) (fl : Option Nat) : Option Top :=
